@@ -8,6 +8,8 @@ package main
 
 import (
 	"context"
+	"crypto/aes"
+	"crypto/cipher"
 	"crypto/tls"
 	"crypto/x509"
 	"crypto/x509/pkix"
@@ -38,6 +40,22 @@ import (
 	secretsql "github.com/scionproto/scion/private/storage/drkey/secret/sqlite"
 	"verifharness/internal/vgen"
 )
+
+// refMAC is the harness's own statement of "the protocol's documented derivation"
+// (doc/cryptography/drkey.rst, PRF derivation specification): AES-128 CBC-MAC with zero IV
+// over the zero-padded input; the key is the LAST cipher block. It is deliberately
+// independent of pkg/drkey: the model's PRF table is filled from it, so the real
+// DeriveKey / derivers / ServiceEngine are compared against model-over-reference.
+func refMAC(key []byte, input []byte) []byte {
+	blk, err := aes.NewCipher(key)
+	must(err)
+	if len(input) == 0 || len(input)%aes.BlockSize != 0 {
+		panic("refMAC: input is not a whole number of blocks")
+	}
+	out := make([]byte, len(input))
+	cipher.NewCBCEncrypter(blk, make([]byte, aes.BlockSize)).CryptBlocks(out, input)
+	return out[len(out)-aes.BlockSize:]
+}
 
 // packed prints a byte string as (DRKey.B len number). Inside a sharing scope
 // (see share) equal strings are printed once and referred to by a let-bound name,
@@ -133,7 +151,9 @@ func genHostValue(r *vgen.Rand) addr.Host {
 
 var hostStrs = []string{"10.1.2.3", "10.1.2.4", "0.0.0.0", "255.255.255.255", "1.0.0.0",
 	"::ffff:10.1.2.3", "::ffff:a01:203", "2001:db8::1", "2001:db8:0:0:0:0:0:1", "2001:DB8::2", "::",
-	"::1", "100::", "fe80::1%eth0", "fe80::1", "CS", "DS", "Wildcard", "CS_M", "DS_A", "Wildcard_M"}
+	"::1", "100::", "fe80::1%eth0", "fe80::1", "CS", "DS", "Wildcard", "CS_M", "DS_A", "Wildcard_M",
+	"2001:db8::1:1", "2001:db8::1:2", "2001:db8::1:102", "2001:db8::2:1", "2001:db8::100:1",
+	"2001:db8:1:2:3:4:5:6", "2001:db8:1:2:3:4:5:7", "2001:db8:1:2:3:4:6:6", "fd00::ff", "fd00::1ff"}
 var junkStrs = []string{"", "cs", "10.1.2", "10.1.2.3.4", " 10.1.2.3", "localhost", "CS_", "_M", "1-ff00:0:1"}
 
 func genHostStr(r *vgen.Rand) string {
@@ -321,7 +341,9 @@ func main() {
 		"(fresh in-memory DBs, own master secrets and epoch lengths), level-1 fetch through the real " +
 		"Server.DRKeyLevel1, engine at the source or destination AS (or neither), protocols predefined and " +
 		"niche, request times at/around epoch boundaries, host strings in several spellings, against the " +
-		"keys a host derives with the real derivers from the real secret value; window: epoch lengths, " +
+		"documented derivation (reference AES-CBC-MAC in the runner, last cipher block) from the real secret " +
+		"value, for the served keys and for the keys of the real derivers; pairs of hosts (mostly IPv6, differing in " +
+		"the last 1-4 bytes) under one parent key: equal keys only for the same host address; window: epoch lengths, " +
 		"acceptance windows, times and timestamps placed at every window/epoch/grace boundary +-1ns; " +
 		"non-trivial = a key was served / selected, or refused at a boundary"
 	rng := vgen.NewRand(run.Seed)
@@ -475,8 +497,13 @@ func main() {
 			must(err)
 			k1, err := specific.Deriver{}.DeriveLevel1(dst, svL.Key)
 			must(err)
-			prfs = append(prfs, prfEntry{svP.Key[:], l1buf, k1P[:]}, prfEntry{svL.Key[:], l1buf, k1[:]})
+			// the table given to the model is the documented derivation (refMAC), chained on
+			// reference keys; the real derivers' outputs are only observations
+			refK1 := refMAC(svL.Key[:], l1buf)
+			prfs = append(prfs, prfEntry{svP.Key[:], l1buf, refMAC(svP.Key[:], l1buf)},
+				prfEntry{svL.Key[:], l1buf, refK1})
 			hostKeys[0] = keyPtr(k1P, nil)
+			var refHas []byte
 			lvl2 := func(kt drkey.KeyType, hs string, parent drkey.Key) (drkey.Key, error) {
 				var k drkey.Key
 				var err error
@@ -499,7 +526,12 @@ func main() {
 					} else {
 						n, _ = generic.VerifSerializeLevel2Input(buf, kt, proto, h)
 					}
-					prfs = append(prfs, prfEntry{parent[:], buf[:n], k[:]})
+					in := append([]byte(nil), buf[:n]...)
+					ref := refMAC(refK1, in)
+					prfs = append(prfs, prfEntry{refK1, in, ref})
+					if kt == drkey.HostAS {
+						refHas = ref
+					}
 				}
 				return k, err
 			}
@@ -519,7 +551,8 @@ func main() {
 					h, _ := addr.ParseHost(dstHost)
 					buf := make([]byte, 32)
 					n, _ := drkey.SerializeHostHostInput(buf, h)
-					prfs = append(prfs, prfEntry{has[:], buf[:n], hh[:]})
+					in := append([]byte(nil), buf[:n]...)
+					prfs = append(prfs, prfEntry{refHas, in, refMAC(refHas, in)})
 				}
 			}
 		}
@@ -580,12 +613,121 @@ func main() {
 		}
 	}
 
+	// 3b. pairs of hosts under one parent key: keys of the real derivers against the
+	// documented derivation, and "equal keys only for the same host address"
+	np := run.Count(300, 30000)
+	for i := 0; i < np; i++ {
+		r := rng.Fork(uint64(250000 + i))
+		f := r.Range(1, 3)
+		kt := vgen.Pick(r, drkey.AsHost, drkey.HostAS)
+		proto := drkey.Protocol(vgen.Pick(r, 2, 7, 200, 256, 0x8007, 65535, r.Range(2, 65535)))
+		var parent drkey.Key
+		copy(parent[:], r.Bytes(16))
+		// first host; two-block inputs (IPv6) are the majority
+		var a1, a2 netip.Addr
+		switch x := r.Intn(10); {
+		case x < 7:
+			b := r.Bytes(16)
+			b[0] = 0x20 // not IPv4-in-IPv6
+			a1 = netip.AddrFrom16([16]byte(b))
+			c := append([]byte(nil), b...)
+			switch y := r.Intn(10); {
+			case y < 6: // differ only in the last 1-4 bytes
+				k := r.Range(1, 4)
+				for j := 16 - k; j < 16; j++ {
+					c[j] ^= byte(r.Range(1, 255))
+				}
+			case y < 7: // a single bit of the last byte
+				c[15] ^= 1 << r.Intn(8)
+			case y < 8: // bytes 12..13 (second block for the generic layout only)
+				c[12+r.Intn(2)] ^= byte(r.Range(1, 255))
+			case y < 9: // first block
+				c[1+r.Intn(11)] ^= byte(r.Range(1, 255))
+			}
+			a2 = netip.AddrFrom16([16]byte(c))
+		case x < 9:
+			b := r.Bytes(4)
+			a1 = netip.AddrFrom4([4]byte(b))
+			c := append([]byte(nil), b...)
+			if r.Chance(3, 4) {
+				c[r.Intn(4)] ^= byte(r.Range(1, 255))
+				a2 = netip.AddrFrom4([4]byte(c))
+			} else { // the same host, written as IPv4-in-IPv6
+				a2 = netip.AddrFrom16(a1.As16())
+			}
+		default:
+			a1 = netip.AddrFrom16([16]byte(r.Bytes(16)))
+			a2 = a1
+		}
+		if !run.Want() {
+			run.Skip()
+			continue
+		}
+		var prfs []prfEntry
+		var outs [2]*drkey.Key
+		hosts := [2]string{a1.String(), a2.String()}
+		var panicMsg string
+		for j, hs := range hosts {
+			var k drkey.Key
+			var err error
+			panicked, msg := vgen.Recover(func() {
+				switch {
+				case f == 1 && kt == drkey.AsHost:
+					k, err = specific.Deriver{}.DeriveASHost(hs, parent)
+				case f == 1:
+					k, err = specific.Deriver{}.DeriveHostAS(hs, parent)
+				case f == 2 && kt == drkey.AsHost:
+					k, err = generic.Deriver{Proto: proto}.DeriveASHost(hs, parent)
+				case f == 2:
+					k, err = generic.Deriver{Proto: proto}.DeriveHostAS(hs, parent)
+				case j == 0:
+					k, err = specific.Deriver{}.DeriveHostHost(hs, parent)
+				default:
+					k, err = generic.Deriver{Proto: proto}.DeriveHostHost(hs, parent)
+				}
+			})
+			if panicked {
+				panicMsg = msg
+				continue
+			}
+			outs[j] = keyPtr(k, err)
+			h := addr.MustParseHost(hs)
+			buf := make([]byte, 32)
+			var n int
+			switch f {
+			case 1:
+				n, err = specific.VerifSerializeLevel2Input(buf, kt, h)
+			case 2:
+				n, err = generic.VerifSerializeLevel2Input(buf, kt, proto, h)
+			default:
+				n, err = drkey.SerializeHostHostInput(buf, h)
+			}
+			if err == nil {
+				in := append([]byte(nil), buf[:n]...)
+				prfs = append(prfs, prfEntry{parent[:], in, refMAC(parent[:], in)})
+			}
+		}
+		desc := map[string]any{"fmt": f, "kt": uint8(kt), "proto": uint16(proto),
+			"parent": fmt.Sprintf("%x", parent[:]), "host1": hosts[0], "host2": hosts[1],
+			"key1": plainKey(outs[0]), "key2": plainKey(outs[1])}
+		run.Tally(fmt.Sprintf("pair:fmt%d-v6:%v-same:%v", f, a1.Is6() && !a1.Is4In6(), a1.Unmap() == a2.Unmap()))
+		term := share(func() string {
+			return vgen.App("DRKey.CPair", prfTerm(prfs), vgen.N(uint64(f)), vgen.N(uint64(kt)),
+				vgen.N(uint64(proto)), packed(parent[:]), strHostTerm(hosts[0]), strHostTerm(hosts[1]),
+				keyOpt(outs[0]), keyOpt(outs[1]))
+		})
+		id := run.Add("pair", term, fmt.Sprint(f, kt, proto, parent, hosts), true, desc)
+		if panicMsg != "" {
+			run.Violate(id, "panic: "+panicMsg, desc)
+		}
+	}
+
 	// 4. acceptance window
 	edChoices := []time.Duration{time.Second, 2 * time.Second, 10 * time.Second, time.Minute,
 		6 * time.Minute, time.Hour, 1500 * time.Millisecond, 999 * time.Millisecond, 0}
 	awChoices := []time.Duration{0, 1, 2, time.Second, 5 * time.Second, 5*time.Second + 1,
 		10 * time.Second, 5 * time.Minute, 2999999999, time.Hour, -time.Second}
-	nw := run.Count(1000, 100000)
+	nw := run.Count(800, 100000)
 	for i := 0; i < nw; i++ {
 		r := rng.Fork(uint64(300000 + i))
 		ed := vgen.Pick(r, edChoices...)
